@@ -40,6 +40,8 @@ pub struct Stream {
     pub tss: Vec<Ts>,
     pub accepted: usize,
     pub overlapped: bool,
+    /// length of the first accepted fragment
+    pub first_len: usize,
 }
 
 impl Stream {
@@ -53,6 +55,7 @@ impl Stream {
             tss: Vec::new(),
             accepted: 0,
             overlapped: false,
+            first_len: 0,
         }
     }
     /// Records an accepted fragment. Returns (overlapped existing bytes,
@@ -92,6 +95,9 @@ impl Stream {
             self.max_end = end as u32;
         }
         self.tss.push(ts);
+        if self.accepted == 0 {
+            self.first_len = bytes.len();
+        }
         self.accepted += 1;
         (overlapped, all_dup)
     }
